@@ -113,10 +113,11 @@ def _blocks(out):
     return blocks
 
 
-def cuts_impl(journal_file, scratch, cuts):
-    """cuts: list of (m, pad). One fjv process; returns one list of lines per cut."""
+def cuts_impl(journal_file, scratch, cuts, fjv=None):
+    """cuts: list of (m, pad). One fjv process; returns one list of lines per cut.  fjv: another build of the harness
+    (the one with debug assertions and overflow checks on)."""
     inp = "".join("%d %d\n" % c for c in cuts)
-    p = subprocess.run([FJV, "readcuts", journal_file, scratch], input=inp, env=ENV, stdout=subprocess.PIPE,
+    p = subprocess.run([fjv or FJV, "readcuts", journal_file, scratch], input=inp, env=ENV, stdout=subprocess.PIPE,
                        stderr=subprocess.PIPE, text=True, timeout=3600)
     return _blocks(p.stdout)
 
